@@ -5,7 +5,7 @@ import numpy as np
 from core import Result
 import proto, gen, kernels, implutil
 
-THEOREMS = ['C04_equals_spec_peak', 'C04_equals_spec_trough', 'C04_identities_peak', 'C04_identities_trough', 'C04_band_amp_window', 'C04_generated', 'C04_generated_row']
+THEOREMS = ['C04_equals_spec_peak', 'C04_equals_spec_trough', 'C04_identities_peak', 'C04_identities_trough', 'C04_band_amp_window', 'C04_generated', 'C04_generated_row', 'C04_routing']
 RULE = ("generated signals of all families x option sets of C01 (plus compute_shape_features' own n_cycles) x both centre extrema x with/without sample columns x signal dtype (float64; 15% int16 / int32 / int64 / uint16 / uint8 spanning most of the type's range); every shape column of the implementation's table is "
         "compared with the Lean specification (documented definition read against the ORIGINAL signal with the centring's own column names): integer columns exactly, "
         "real columns within 1e-9 relative; band_amp once with the real amp_by_time and once with an integer-valued amplitude stub (harness process only) so that the "
